@@ -54,9 +54,26 @@ type vMonitor struct {
 	nextCl  int64
 	delay   func(site string) time.Duration // injected delays (nil = none)
 	clients map[int64]*vClient
+	gates   map[int64]chan struct{} // client number -> gate its Points calls wait at
 }
 
-func newVMonitor() *vMonitor { return &vMonitor{clients: map[int64]*vClient{}} }
+func newVMonitor() *vMonitor {
+	return &vMonitor{clients: map[int64]*vClient{}, gates: map[int64]chan struct{}{}}
+}
+
+// hold makes the client's Points calls block until the returned func is called.
+func (m *vMonitor) hold(client int64) (release func()) {
+	g := make(chan struct{})
+	m.mu.Lock()
+	m.gates[client] = g
+	m.mu.Unlock()
+	return func() {
+		m.mu.Lock()
+		delete(m.gates, client)
+		m.mu.Unlock()
+		close(g)
+	}
+}
 
 func (m *vMonitor) add(e vEvent) int64 {
 	m.mu.Lock()
@@ -136,6 +153,13 @@ func (c *vClient) Stop(_ error) {
 }
 
 func (c *vClient) Points(id string, pts []data.Point) {
+	// a client that is busy for a while: the call does not return until the harness opens the gate
+	c.mon.mu.Lock()
+	gate := c.mon.gates[c.n]
+	c.mon.mu.Unlock()
+	if gate != nil {
+		<-gate
+	}
 	c.mon.add(vEvent{Kind: "points", Key: c.key, Client: c.n, Node: id, Points: append(data.Points{}, pts...)})
 }
 
